@@ -1,11 +1,13 @@
 SPECIFICATION CredsSpec
 CONSTANTS
     Files <- MCFiles
-    Rows <- MCRows
+    Rows = {}
     MaxLen = 3
     MlLen = 3
     PairLen = 1
     WizLen = 3
+    PemLen = 2
+    PemOff = 0
     RowMode = "pairs"
     SkipRules = TRUE
 INVARIANTS CredsTypeOK ScanAgrees ExactPairs RefuseOnlyIfAllowed LoadIfPlain ExportSame WizardRoundTrip EmitVector
